@@ -89,6 +89,13 @@ long aligned(int *p) { return ((unsigned long)p + 7) & ~7ul; }
 int *idx(int i) { return &garr2[i]; }
 void *slot; long asint(void) { return (long)slot; } void setp(long v) { slot = (void*)v; }
 '''
+C_UND = r'''
+int pick(int c, int d) { int x; unsigned char y; if (c) { x = d + 1; y = 7; } return x + y; }
+long pickl(int c, long d) { long x; short s; if (c) { x = d | 1; s = 3; } return x + s; }
+'''
+C_UNDF = r'''
+double pickd(int c, double d) { double x; float f; if (c) { x = d + 1.0; f = 2.0; } return x + f; }
+'''
 C_FLOAT = r'''
 double gd; float gf;
 double fd(double a, double b) { return a * b + a / b - (a - b); }
@@ -110,14 +117,16 @@ def regen(ctx):
             arch, sys_ = ex.build_system(march)
             rules = ex.export_rules(sys_)
             desc = ex.export_desc(arch)
+            synth = ex.export_synth(arch, sys_)
         except Exception as e:   # noqa: BLE001
             ctx.log('cannot export the burg system of %s: %r' % (march, e))
             ctx.failed_stages.append(('export', '%s: %r' % (march, e)))
             raise TieBroken(str(e))
-        changed = ctx.write_gen('Tab_burg_' + tname, ex.table_text(tname, march, rules, desc))
+        changed = ctx.write_gen('Tab_burg_' + tname, ex.table_text(tname, march, rules, desc, synth))
         cond_chain = [r['idx'] for r in rules if r['kind'] == 1 and r['pat'][0] == 'nt']
-        info[tname] = {'march': march, 'rules': rules, 'desc': desc, 'sys': sys_, 'arch': arch}
+        info[tname] = {'march': march, 'rules': rules, 'desc': desc, 'sys': sys_, 'arch': arch, 'synth': synth}
         ctx.cov['stages']['gen_Tab_burg_' + tname] = {
+            'synthesized_rules': len(synth[0]),
             'rules': len(rules), 'conditional': sum(1 for r in rules if r['kind'] == 1),
             'cond_total_on_range': sum(1 for r in rules if r['kind'] == 2),
             'conditional_chain_rules(applied unconditionally by mark_tree)': cond_chain,
@@ -393,7 +402,41 @@ def compile_corpus(ctx, tname, info, excl, nmods, levels, opts, with_c=True):
                 rec.update({'ir': 'props.c29_replay.ptr_module', 'opt_level': lvl})
                 per_class[rec['class']] = per_class.get(rec['class'], 0) + 1
                 ctx.violation(rec)
+        # used Undefined values of every value type (hand-built IR), levels 0, 1, 2
+        for lvl in (0, 1, 2):
+            m = rp.und_module(types)
+            try:
+                verify_module(m)
+                if lvl:
+                    api.optimize(m, level=lvl)
+                    verify_module(m)
+            except Exception:   # noqa: BLE001
+                skipped['optimizer_exception'] += 1
+                continue
+            n0 = len(h.errors)
+            try:
+                api.ir_to_object([m], info['march'])
+            except Exception as e:   # noqa: BLE001
+                h.errors.append(('<module unds>', e, traceback.format_exc(), None, None))
+            for err in h.errors[n0:]:
+                rec, _ = classify(tname, info, excl, err)
+                rec.update({'ir': 'props.c29_replay.und_module', 'opt_level': lvl})
+                per_class[rec['class']] = per_class.get(rec['class'], 0) + 1
+                ctx.violation(rec)
         if with_c:
+            # the C idiom that makes mem2reg leave a used Undefined (local not assigned on every path)
+            for nm, src in [('cu', C_UND)] + ([('cuf', C_UNDF)] if any(not t.is_integer for t in types) else []):
+                for lvl in (1, 2):
+                    n0 = len(h.errors)
+                    try:
+                        api.cc(io.StringIO(src), info['march'], opt_level=lvl)
+                    except Exception as e:   # noqa: BLE001
+                        h.errors.append(('<cc %s -O%d>' % (nm, lvl), e, traceback.format_exc(), None, None))
+                    for err in h.errors[n0:]:
+                        rec, _ = classify(tname, info, excl, err)
+                        rec.update({'c_sample': nm, 'opt_level': lvl})
+                        per_class[rec['class']] = per_class.get(rec['class'], 0) + 1
+                        ctx.violation(rec)
             srcs = [('c1', C_SRC), ('c2', C_SRC2), ('cp', C_PTR)] + ([('cf', C_FLOAT)] if any(not t.is_integer for t in types) else [])
             for nm, src in srcs:
                 n0 = len(h.errors)
@@ -558,6 +601,24 @@ def diagnose(ctx, info_all, excl, build_out='', built=False):
     """which operator became uncovered?  Evaluate Model.C29Cases.diag_<t>, replay each tree on the implementation"""
     if not built and not ctx.build(['Model/C29Cases.vo'])[0]:
         return
+    for tname, march in TARGETS:
+        info = info_all[tname]
+        rows, clsnt = info['synth']
+        for op in ex.synth_bad(rows, clsnt, info['desc']):
+            row = [r for r in rows if r[0] == op][0]
+            ctx.log('%s: synthesized rule %s <- %s produces a register of class %r (value_classes: %r)'
+                    % (tname, row[2], op, row[3], {t['name']: t['cls'] for t in info['desc']['types']}.get(row[1])))
+            tr = '%s(%s,REG%s)' % (('OR' if row[1][0] in 'IU' else 'ADD') + row[1], op, row[1])
+            res = try_tree(tr, march)
+            rec = {'fn': 'und_pattern', 'target': tname, 'class': 'synthesized-rule-wrong-class', 'rule': '%s <- %s' % (row[2], op),
+                   'produced_class': row[3], 'tree': tr, 'key': 'synth %s %s' % (tname, op),
+                   'how_to_replay': ('PYTHONPATH=/repo:/verif/tools python -c "from props import c29_replay as r; '
+                                     'print(r.try_compile(r.build_module(r.parse_tree(%r)), %r))"' % (tr, march))}
+            if res is not None:
+                rec.update({'exception': res[0], 'message': res[1]})
+                ctx.violation(rec)
+            else:
+                ctx.log('  %s: %s still compiles: no concrete failing input from this witness' % (tname, tr))
     failing = set(re.findall(r'Proofs/C29_(\w+)\.v"', build_out)) & {t for t, _ in TARGETS}
     for tname, march in TARGETS:
         if failing and tname not in failing:
@@ -662,7 +723,7 @@ def search(ctx):
         try:
             arch, sys_ = ex.build_system(march)
             info_all[tname] = {'march': march, 'rules': ex.export_rules(sys_), 'desc': ex.export_desc(arch),
-                               'sys': sys_, 'arch': arch}
+                               'sys': sys_, 'arch': arch, 'synth': ex.export_synth(arch, sys_)}
         except Exception:   # noqa: BLE001
             continue
     if len(info_all) == len(TARGETS):
